@@ -25,8 +25,16 @@ type violationErr struct{ prop, key, msg string }
 
 var collectMode bool
 
+// propOverride attributes every violation found by a test to one property
+// (the fork-identity test reuses the C01/C03 machinery).
+var propOverride string
+
 func fail(t *rapid.T, prop, key, format string, args ...any) {
 	t.Helper()
+	if propOverride != "" && prop != propOverride {
+		key = prop + "-" + key
+		prop = propOverride
+	}
 	if collectMode {
 		panic(violationErr{prop, key, fmt.Sprintf(format, args...)})
 	}
